@@ -9,7 +9,7 @@ sys.path.insert(0, HERE)
 import obligations as OB  # noqa
 
 KANI = "Kani 0.68 / CBMC 6.11 bounded symbolic execution of the real crate (scratch copy of /repo + overlay: fixed-capacity container, RocksDB and RwLock models); SAT verdict per harness over all inputs inside the stated bounds"
-SMT = "MIR (nightly -Zunpretty=mir) of the real functions translated to SMT-LIB bit-vector terms; cvc5 (int-blasting) and z3 decide the negated property"
+SMT = "MIR (nightly -Zunpretty=mir) of the real functions translated to SMT-LIB bit-vector terms (integer kernels statement by statement; for loop-free functions made of calls, every MIR path is enumerated with its path condition and call events); cvc5 (int-blasting) and z3 decide the negated property, counterexamples are replayed as native tests"
 LOCK = "lock-acquisition event paths of every engine entry point extracted from the crate's MIR; z3 searches all two-thread interleavings under writer-preferring RwLock semantics for a state where no thread can move"
 
 CLAIMS = {
